@@ -1,4 +1,5 @@
 import Sgz.Proofs.Cache
+import Sgz.Proofs.HeaderReads
 /-!
 # C15 — history independence
 
@@ -50,5 +51,50 @@ example : ((run gDemo cfgDemo St.init [(0, .il 4), (1, .il 5), (0, .il 4), (0, .
     fun r => (match r with | .ok o => o.fetches.length | .error _ => 99)) = [1, 1, 1, 1, 99, 1] := by decide
 example : ((run gDemo cfgDemo St.init [(0, .il 4), (0, .il 5), (0, .il 6)]).map
     fun r => (match r with | .ok o => o.fetches.length | .error _ => 99)) = [1, 0, 0] := by decide
+
+/-! ### header and tracefield reads (Model/HeaderReads)
+
+The reader also remembers header arrays: the padding mode of its first `read_variant_headers` (until
+`clear_variant_headers`), the population mask, the loaded (masked or padded) arrays, the raw arrays of
+`get_tracefield_values`.  Every history of `gen_trace_header` (with or without `load_all_headers`),
+`get_tracefield_values`, `read_variant_headers` (either mode, all fields or one) and `clear_variant_headers` returns, at each
+header / tracefield read, what a fresh reader returns.  Hypotheses: a structured file is 3D; an unstructured 3D file stores
+at least one header array (it stores the inline numbers, from which the population is read).  `read_variant_headers` itself
+returns nothing; its refusal of a second mode on one reader is pinned by the repository's own tests and is not a read
+result (`obs`). -/
+
+theorem header_history_independence (h : HeaderReads.HFile) (il : Nat)
+    (hwf : h.structured = true → h.is3d = true)
+    (hst : h.is3d = true → h.structured = false → HeaderReads.hasStored h = true)
+    (ops : List HeaderReads.HOp) :
+    List.zipWith HeaderReads.obs ops (HeaderReads.run h il HeaderReads.HSt.init ops)
+      = ops.map fun op => HeaderReads.obs op (HeaderReads.pure h il op) :=
+  HeaderReads.run_spec h il hwf hst ops _ (HeaderReads.hinv_init h il)
+
+/-- the header a reader returns for ordinal `t`, after any history and in either padding mode, is the one the file
+defines: constants from the table, every other field from the stored array of the field that owns it, at the grid slot of the
+`t`-th populated trace (unstructured 3D), at `t` itself otherwise; `IndexError` when there is no such trace -/
+theorem header_value (h : HeaderReads.HFile) (il : Nat) (st : HeaderReads.HSt) (hinv : HeaderReads.HInv h il st) (t : Nat)
+    (loadAll : Bool) (hwf : h.structured = true → h.is3d = true)
+    (hst : h.is3d = true → h.structured = false → HeaderReads.hasStored h = true) :
+    HeaderReads.HR.vals (HeaderReads.genTraceHeader h il st t loadAll).2 = HeaderReads.headerCanon h il t :=
+  (HeaderReads.genTraceHeader_spec h il st hinv t loadAll hwf hst).2
+
+/-- the invariant is inductive over header operations -/
+theorem header_invariant_inductive (h : HeaderReads.HFile) (il : Nat) (st : HeaderReads.HSt) (hinv : HeaderReads.HInv h il st)
+    (hwf : h.structured = true → h.is3d = true)
+    (hst : h.is3d = true → h.structured = false → HeaderReads.hasStored h = true) (op : HeaderReads.HOp) :
+    HeaderReads.HInv h il (HeaderReads.step h il st op).1 :=
+  (HeaderReads.step_spec h il st hinv hwf hst op).1
+
+-- non-vacuity: an irregular 2x2 grid with one hole, two stored fields; padded load, header, tracefield, clear, header
+def hDemo : HeaderReads.HFile :=
+  { tbl := [(0, 1), (7, 0), (0, 3)], grid := 4, is3d := true, structured := false, hole := fun p => p == 2,
+    footer := 1000, stride := 16, len := 16, val := fun k p => if p == 2 then 0 else (k + 1) * 100 + p }
+example : HeaderReads.hasStored hDemo = true := by decide
+example : ((HeaderReads.run hDemo 0 HeaderReads.HSt.init [.rvh true, .hdr 2, .tfv 2, .clear, .hdr 2, .hdr 3, .rvh true]).map
+    HeaderReads.HR.vals)
+    = [.ok [], .ok [103, 7, 203], .ok [200, 201, 0, 203], .error .other, .ok [103, 7, 203], .error .index,
+       .error .assertion] := by rfl
 
 end Sgz.Props.C15
